@@ -30,8 +30,10 @@ Objects. A state is represented by a label (`Nat`), a position by a reference: `
 attribute; no `Coords` object is written, which is why neither `xyz` nor `stXYZ` has a writer in this file). The
 names `x`, `y`, `z` as observations read the coordinates of whatever object the position is at that moment.
 What `S` returns is only used through `len(…)` and `[i]`, and `math.log` raises outside its domain: `SRet`,
-`domainError`, `estimateS` at the end of the file (`estimate` itself is the call for list-like returns and values inside
-the domain).
+`domainError`, `estimateS` (`estimate` itself is the call for list-like returns and values inside the domain). The user
+functions receive the track and may read it: `h.S tr`, `h.Q … tr`, `h.P … tr` are all evaluated on the argument `tr` of
+the call, never on a track the call has started to write. They may also raise: `ObjX`, `estimateX` at the end of the
+file (what the driver runs).
 
 `mode` only selects how the observation handed to `P` is assembled and whether positions are overwritten;
 there is no decoding mode other than Viterbi. `verbose` only prints (the strings are built in every case,
@@ -67,6 +69,7 @@ inductive Err where
   | emptyTrack   -- AnalyticalFeatureError "... there is no observation in track"
   | unsupported  -- outside the model (t, timestamp as feature names; writing x, y, z); never generated
   | type         -- TypeError: `len(STATES[k])` of something that has no length
+  | user         -- whatever exception a user function (`S`, `Q`, `P`) raised: it propagates out of `estimate`
   deriving DecidableEq
 
 /-- constants and functions of the scalar type that the code uses -/
@@ -288,4 +291,69 @@ def estimateS [Add α] [Neg α] [LT α] [DecidableLT α] (nm : Num α) (h : ObjS
       let r := estimate nm o tr obs log mode
       ({ h with log := r.1.log }, r.2.1, r.2.2)
   else ({ h with log := h.log || log }, tr, some .type)
+
+/-! ### user functions that raise
+
+`estimate` calls the user functions in a fixed order and catches nothing: `S(track, k)` for every epoch (the first loop,
+before any `len`), then — after `TAB_MRK` / `TAB_VAL` are allocated and the observations compiled — `Plog` for every
+candidate of epoch 0, then per epoch `k ≥ 1`, per candidate `l` of it, `Qlog` for every candidate `m` of epoch `k-1` and
+then `Plog` for `l`. All of that precedes the backward step, the only place where the track is written. The first call
+that raises ends `estimate` with that exception; `math.log` outside its domain (`ValueError`) is one of the possible
+exceptions of a `Qlog` / `Plog` call, in the same order. -/
+
+/-- the HMM object whose user functions may raise (`none`) -/
+structure ObjX (α : Type) where
+  S : Trk α → Nat → Option SRet
+  Q : Nat → Nat → Nat → Trk α → Option α
+  P : Nat → List (ObsItem α) → Nat → Trk α → Option α
+  log : Bool
+
+/-- the object as `estimateS` sees it when no call raises (`dflt` stands for values that are never looked at) -/
+def ObjX.toObjS (h : ObjX α) (dflt : α) : ObjS α :=
+  { S := fun tr k => (h.S tr k).getD .unsized
+    Q := fun s1 s2 k tr => (h.Q s1 s2 k tr).getD dflt
+    P := fun s y k tr => (h.P s y k tr).getD dflt
+    log := h.log }
+
+/-- what one call of `Qlog` / `Plog` does, given what the user function did: the user's exception, `ValueError` of
+`math.log(v + 1e-300)` when the flag is unset and the value is outside the domain, or a normal return (`none`) -/
+def callErr [Add α] (nm : Num α) (log : Bool) : Option α → Option Err
+  | none => some .user
+  | some v => if !log && !nm.logDom (v + nm.eps) then some .value else none
+
+/-- the first exception of a sequence of calls -/
+def firstErr : List (Option Err) → Option Err
+  | [] => none
+  | none :: rest => firstErr rest
+  | some e :: _ => some e
+
+/-- the `Plog` / `Qlog` calls of the first column and of the forward pass, in the order they are made -/
+def callsOf [Add α] (nm : Num α) (log : Bool) (h : ObjX α) (tr : Trk α) (STATES : List (List Nat))
+    (OBS : List (List (ObsItem α))) : List (Option Err) :=
+  (STATES.getD 0 []).map (fun s => callErr nm log (h.P s (OBS.getD 0 []) 0 tr)) ++
+  (List.range (STATES.length - 1)).flatMap fun k =>
+    (STATES.getD (k+1) []).flatMap fun s2 =>
+      (STATES.getD k []).map (fun s1 => callErr nm log (h.Q s1 s2 k tr)) ++
+        [callErr nm log (h.P s2 (OBS.getD (k+1) []) (k+1) tr)]
+
+/-- `HMM.estimate` with user functions that may raise: the flag of the object after the call, the track, the exception.
+`S` raising at some epoch, or — every `S(track, k)` having a length, the observations compiled, the track not empty —
+the first failing call of the first column / forward pass being a user function's exception: that exception, nothing
+written; in every other case `estimateS` (a `TypeError`, an error of the observations, a `ValueError` of `math.log`
+that comes first, or the decoding). -/
+def estimateX [Add α] [Neg α] [LT α] [DecidableLT α] (nm : Num α) (h : ObjX α) (tr : Trk α)
+    (obs : List String) (log : Bool) (mode : Nat) : Bool × Trk α × Option Err :=
+  if (List.range tr.size).any (fun k => (h.S tr k).isNone) then (h.log || log, tr, some .user)
+  else
+    let o := h.toObjS nm.zero
+    let userFirst :=
+      (List.range tr.size).all (fun k => (o.S tr k).isSized) &&
+      match (List.range tr.size).mapM (fun k => getObsK nm tr obs k mode) with
+      | .ok OBS => tr.size != 0 &&
+          firstErr (callsOf nm (h.log || log) h tr ((List.range tr.size).map (fun k => (o.S tr k).items)) OBS) == some .user
+      | .error _ => false
+    if userFirst then (h.log || log, tr, some .user)
+    else
+      let r := estimateS nm o tr obs log mode
+      (r.1.log, r.2.1, r.2.2)
 end TV.Hmm
